@@ -31,7 +31,7 @@ import (
 )
 
 func init() {
-	reg.Register(&reg.Prop{ID: "C12", Level: "exploration", Main: Main, Child: Child})
+	reg.Register(&reg.Prop{ID: "C12", Level: "exploration", Main: Main, Child: Child, Replay: Replay})
 }
 
 type childCfg struct {
@@ -50,6 +50,7 @@ const (
 
 type openCase struct {
 	Trigger  string          `json:"trigger"`
+	WedgeKey string          `json:"wedge_key"`
 	Endpoint string          `json:"endpoint"`
 	Case     json.RawMessage `json:"case"`
 }
@@ -100,7 +101,7 @@ func Main(c *run.Ctx) {
 			case out.Exit == exitStall:
 				// reported by the child (wedge or undecided); do not run this input class again
 				mu.Lock()
-				skip[open.Trigger] = true
+				skip[open.WedgeKey] = true
 				mu.Unlock()
 			case out.TimedOut:
 				c.Undecided("child watchdog expired inside a case")
@@ -377,7 +378,7 @@ func Child(c *run.Ctx, name string) {
 			cs = genCase(c.Rng(fmt.Sprintf("c12/case/%d", gi)), gi)
 		}
 		trig := cs.trigger()
-		if skip[trig] {
+		if skip[trig] || skip[cs.wedgeKey()] {
 			c.Cover("skipped", cs.Gen.Endpoint+"|"+cs.DB.class()+"|"+cs.Client, 1)
 			continue
 		}
@@ -390,7 +391,7 @@ func Child(c *run.Ctx, name string) {
 			short.Gen.Req.Path = clip(short.Gen.Req.Path, 500)
 			cb, _ = json.Marshal(short)
 		}
-		c.BeginCase(gi, openCase{Trigger: trig, Endpoint: cs.Gen.Endpoint, Case: cb})
+		c.BeginCase(gi, openCase{Trigger: trig, WedgeKey: cs.wedgeKey(), Endpoint: cs.Gen.Endpoint, Case: cb})
 		if i < 3 {
 			c.Sample(map[string]any{"endpoint": cs.Gen.Endpoint, "request": clip(cs.Gen.Req.String(), 300), "db": cs.DB, "client": cs.Client})
 		}
@@ -423,6 +424,9 @@ func Child(c *run.Ctx, name string) {
 		if outcome.kind == "answered" {
 			c.Floor("requests answered", 0, 1)
 		}
+		if outcome.answer == "5xx-tamed-panic" {
+			c.Cover("tamed-handler-panics", cs.Gen.Endpoint+"|"+shapeClass(cs.Gen.QueryShape)+"|"+cs.DB.class(), 1)
+		}
 		if outcome.kind == "abandoned" && cs.Client == "abandon-mid" {
 			c.Floor("client went away mid-response", 0, 1)
 		}
@@ -430,14 +434,15 @@ func Child(c *run.Ctx, name string) {
 			c.Floor("database error at row k", 0, 1)
 		}
 		if outcome.kind == "no-response" {
-			head, frame := panicFrame(f.plog.take())
+			plog := f.plog.take()
+			head, frame := panicFrame(plog)
 			where := frame
 			if where == "" {
 				where = cs.DB.class()
 			}
 			c.Violation("no-response/"+cs.Gen.Endpoint+"/"+where, fmt.Sprintf("%s: the connection was closed twice without any HTTP response (%s); the handler panicked: %s at %s; request %s; database script %s",
 				cs.Gen.Endpoint, outcome.err, head, frame, clip(cs.Gen.Req.String(), 400), cs.DB.class()),
-				map[string]any{"case_index": gi, "case": json.RawMessage(cb), "client_error": outcome.err, "panic": head, "frame": frame})
+				map[string]any{"case_index": gi, "case": json.RawMessage(cb), "client_error": outcome.err, "panic": head, "frame": frame, "panic_log": clip(plog, 4000)})
 		}
 		// quiescence: everything started for the request must be gone
 		bound := 3 * time.Second
@@ -537,7 +542,7 @@ func (f *fuzzer) send(cs *ccase, gone chan struct{}) outcome {
 		if cs.Client == "abandon-mid" {
 			after = 64
 		}
-		n, err := f.cl.Abandon(cs.Gen.Req, after, 5*time.Second)
+		n, err := f.cl.Abandon(cs.Gen.Req, after, 300*time.Millisecond)
 		time.Sleep(2 * time.Millisecond)
 		close(gone)
 		if err != nil {
@@ -593,6 +598,10 @@ func (f *fuzzer) send(cs *ccase, gone chan struct{}) outcome {
 	if resp.TimedOut { // headers arrived, the body never ended
 		return outcome{kind: "no-answer", answer: "body-never-ended", err: resp.Err, status: resp.Status}
 	}
+	if resp.Status == 500 && string(resp.Body) == "Internal Server Error" {
+		// controller/utils.go tamePanic: a handler panic turned into an answer
+		return outcome{kind: "answered", answer: "5xx-tamed-panic", status: resp.Status}
+	}
 	return outcome{kind: "answered", answer: fmt.Sprintf("%dxx", resp.Status/100), status: resp.Status}
 }
 
@@ -614,6 +623,18 @@ func (f *fuzzer) judgeNoAnswer(cs *ccase, gi int, o outcome) {
 		c.Undecided("request unanswered at the client timeout but no goroutine sits in the same qryn frames in two dumps (" + clip(o.err, 100) + ")")
 		return
 	}
+	// a goroutine of the request that is running or runnable in either dump means the request is
+	// still computing (a slow, possibly very slow, request): not decidable as "blocked forever" here
+	for _, set := range []map[string]run.Goroutine{d1, d2} {
+		for _, g := range set {
+			st := strings.SplitN(g.State, ",", 2)[0]
+			if st == "running" || st == "runnable" || st == "syscall" {
+				c.Undecided("request unanswered after " + clientWait.String() + " but still computing in " + g.QrynFrames()[0])
+				c.Cover("still-computing-at-timeout", cs.Gen.Endpoint+"|"+g.QrynFrames()[0]+"|"+strings.Join(cs.Gen.Specials, ","), 1)
+				return
+			}
+		}
+	}
 	sort.Slice(stuck, func(i, j int) bool { return len(stuck[i].QrynFrames()) > len(stuck[j].QrynFrames()) })
 	// prefer the handler goroutine (created by net/http) for the signature
 	top := stuck[0]
@@ -631,4 +652,44 @@ func (f *fuzzer) judgeNoAnswer(cs *ccase, gi int, o outcome) {
 	c.Violation("wedged/"+cs.Gen.Endpoint+"/"+fr, fmt.Sprintf("%s: no complete HTTP answer after %v (%s); %d goroutine(s) of the request sit in the same qryn frames in two dumps 2 s apart, the handler in %s [%s]; request %s; database script %s",
 		cs.Gen.Endpoint, clientWait, o.answer, len(stuck), fr, top.State, clip(cs.Gen.Req.String(), 400), cs.DB.class()),
 		map[string]any{"case_index": gi, "case": json.RawMessage(cb), "client_error": o.err, "goroutines": clip(raw, 8000)})
+}
+
+// Replay re-runs the case of a replay file (cases are regenerated from the seed and the case
+// index; run with VERIF_SEED set to the seed stored in the file).
+func Replay(c *run.Ctx, path string) {
+	b, err := os.ReadFile(path)
+	if err != nil {
+		c.Undecided("cannot read replay file: " + err.Error())
+		return
+	}
+	var doc struct {
+		Seed int64  `json:"seed"`
+		Sig  string `json:"sig"`
+		Case struct {
+			Index int `json:"case_index"`
+		} `json:"case"`
+	}
+	if err := json.Unmarshal(b, &doc); err != nil {
+		c.Undecided("cannot parse replay file: " + err.Error())
+		return
+	}
+	if doc.Seed != c.Seed() {
+		fmt.Printf("the file was recorded with VERIF_SEED=%d; re-run with that seed\n", doc.Seed)
+		c.Undecided("replay needs VERIF_SEED=" + fmt.Sprint(doc.Seed))
+		return
+	}
+	tail := strings.Contains(doc.Sig, "/loki.tail/")
+	out := c.RunChild(run.ChildSpec{Prop: "C12", Name: "fuzz", Cfg: childCfg{Start: doc.Case.Index, N: 1, Tail: tail}, Timeout: 5 * time.Minute, MemKB: memKB})
+	c.Case("replay")
+	c.Case("replay|" + doc.Sig)
+	if !out.Completed && out.OpenIdx >= 0 && out.Exit != exitStall {
+		var open openCase
+		json.Unmarshal(out.OpenCase, &open)
+		head, frame := deathHead(out.Stderr)
+		if frame == "" {
+			frame = "no-qryn-frame"
+		}
+		c.Violation("process-death/"+open.Endpoint+"/"+frame, fmt.Sprintf("the reader process died: %s at %s; case: %s", head, frame, clip(string(open.Case), 900)), map[string]any{"case_index": out.OpenIdx, "stderr_tail": tailS(out.Stderr, 6000)})
+	}
+	fmt.Printf("replay of case %d: child exit %d completed %v\n%s\n", doc.Case.Index, out.Exit, out.Completed, tailS(out.Stderr, 3000))
 }
